@@ -84,6 +84,11 @@ def frame_with(key, value_items):
     fc = Adt('FieldsContainer', None, 0, [VecObj([some(Tup([StrBuf(key, 'Arc<str>'), StrBuf(value_items)]))])])
     return Adt('Frame', None, 0, [fc, none()], ['fields', 'binary'])
 
+def text_of(v):
+    """the text of whatever string type a name accessor returns (&str, String, Cow<str>: the signature is not part of the property)"""
+    from models_core import as_items
+    return list(as_items(v))
+
 def run_instance(payload):
     P = engine.load_program()
     res = Result(str(payload))
@@ -166,7 +171,7 @@ def run_instance(payload):
             back = None
             if r.variant == 'Ok':
                 cow = I.call_repo('mpd_client::tag::Tag::as_str', [ref_to(r.fields[0])])
-                back = list(cow.fields[0].items()) if cow.variant == 'Borrowed' else list(cow.fields[0].b)
+                back = text_of(cow)
             return r, back
         for pr in explore(P, harness):
             res.paths += 1
@@ -204,7 +209,7 @@ def run_instance(payload):
             back = None
             if r.variant == 'Ok':
                 cow = I.call_repo('mpd_client::tag::Tag::as_str', [ref_to(r.fields[0])])
-                back = list(cow.fields[0].items()) if cow.variant == 'Borrowed' else list(cow.fields[0].b)
+                back = text_of(cow)
             return r, back
         for pr in explore(P, harness):
             res.paths += 1
@@ -279,7 +284,7 @@ def run_instance(payload):
             back = None
             if r.variant == 'Some':
                 sr = I.call_repo('mpd_client::client::Subsystem::as_str', [ref_to(r.fields[0])])
-                back = list(sr.items())
+                back = text_of(sr)
             return r, back
         for pr in explore(P, harness):
             res.paths += 1
